@@ -44,7 +44,7 @@ COMPONENTS = dict(c01.COMPONENTS, real=c01.COMPONENTS["real"] + [
 RULE = ("one evaluation = one seeded history of 3-25 operations with the oracles evaluated after every operation; "
         "non-trivial = the history contains at least one registration or tracked-option change and one make/get; "
         "distinct = different hash of the history")
-TYPES = ["sa", "n0", "n1", "n2", "n3"]
+TYPES = ["sa", "n0", "n1", "n2", "n3", "c1"]
 RUN = "0"
 # No two values that are equal under == but hash differently (1 / True / 1.0): exact matching goes by the
 # lineage hash, fuzzy matching by ==, so such pairs are "the same" for one and "different" for the other.
@@ -63,6 +63,9 @@ def base_spec(r):
          "extra_opts": [{"name": "sh", "default": 0, "track": True}]},
         {"name": "n3", "kind": "rowmap", "dep": "n1", "a": 3, "b": 0,
          "extra_opts": [{"name": "misc", "default": ("a", 3.0), "track": True}]},
+        # c1: a CHILD plugin of n1's class (strax child_plugin): child options c_u1 (untracked, replaces u1) and
+        # c_sh (tracked, replaces sh); its lineage holds the tracked child options and the parent's name + version
+        {"name": "c1", "kind": "rowmap", "dep": "n0", "a": 1, "b": 5, "child_of": "n1"},
     ]
     for n in nodes:
         n["opts"] = {"save_when": "ALWAYS", "rechunk_on_save": False}
@@ -78,7 +81,7 @@ def gen(seed, tier):
         k = r.choice(["set_config", "set_config", "register", "register", "new_context", "make", "get", "get",
                       "second_get", "restart", "fuzzy"])
         if k == "set_config":
-            name = r.choice(["opt_n0", "opt_n0", "u1", "sh", "misc"])
+            name = r.choice(["opt_n0", "opt_n0", "u1", "sh", "misc", "c_u1", "c_sh"])
             val = r.choice([0, 1, 5, 7, -3]) if name in ("opt_n0", "u1") else r.choice(OPT_VALUES)
             ops.append(["set_config", name, val])
         elif k == "register":
@@ -156,6 +159,11 @@ class Model:
     def lineage(self, d):
         n = self.node(d)
         opts = {}
+        if n.get("child_of"):
+            # the parent's options that the child replaces are dropped; untracked child options are not tracked
+            p = self.node(n["child_of"])
+            opts["c_sh"] = self.config.get("c_sh", 0)
+            opts[p.get("class_name") or f"H_{p['name']}"] = p.get("version", "0.0.1")
         if n.get("has_opt") and n.get("opt_track", True):
             name = n.get("opt_name", f"opt_{n['name']}")
             opts[name] = self.config.get(name, n.get("opt_default", 0))
@@ -172,6 +180,20 @@ class Model:
 
     def oracle(self):
         return P.oracle(self.spec, self.config)
+
+
+def make_child(cl, ordered):
+    """Turn the stand-alone class built for c1 into a strax child plugin of n1's current class."""
+    plain, parent = cl["c1"], cl["n1"]
+    attrs = {k: v for k, v in plain.__dict__.items() if k not in ("__dict__", "__weakref__", "takes_config")}
+    attrs["child_plugin"] = True
+    child = type(plain.__name__, (parent,), attrs)
+    child = strax.takes_config(
+        strax.Option("c_u1", default=0, track=False, child_option=True, parent_option_name="u1"),
+        strax.Option("c_sh", default=0, track=True, child_option=True, parent_option_name="sh"))(child)
+    import dst.dyn as dyn
+    setattr(dyn, plain.__name__, child)
+    return dict(cl, c1=child), [child if c is plain else c for c in ordered]
 
 
 def filtered(lin, fuzzy_for=(), fuzzy_for_options=()):
@@ -199,6 +221,8 @@ def run_history(w, pr, res, keys_only=False, permute=False):
     def classes_for(m):
         build_n[0] += 1
         cl, ordered = P.build_classes(m.spec, log=pr.log, prefix="H")
+        if "c1" in cl:
+            cl, ordered = make_child(cl, ordered)
         return cl, ordered
 
     def new_ctx(m, storage=None, extra=None):
@@ -223,6 +247,8 @@ def run_history(w, pr, res, keys_only=False, permute=False):
         fresh = new_ctx(m, storage=[])
         table = {}
         for d in TYPES:
+            if d not in P.node_by_type(m.spec):       # replay files written before c1 existed
+                continue
             k_live = str(ctx.key_for(RUN, d))
             k_new = str(fresh.key_for(RUN, d))
             table[d] = k_live
@@ -253,6 +279,8 @@ def run_history(w, pr, res, keys_only=False, permute=False):
             model.apply_register(op[1], op[2])
             cl, _ = classes_for(model)
             ctx.register(cl[op[1]])
+            if op[1] == "n1" and "c1" in cl:
+                ctx.register(cl["c1"])       # redefining the parent class redefines its child
         elif kind == "new_context":
             ctx = ctx.new_context()
         elif kind == "restart":
